@@ -75,6 +75,8 @@ def build(run):
     crate_e, lemma_e = mms_lemma(run)
     run.kani(crate_e, [lemma_e], timeout=600)
 
+    crate_g, lemma_g = split_lemma(run)
+    run.kani(crate_g, [lemma_g], timeout=600)
     crate_f, lemma_f = bookmark_lemma(run)
     run.kani(crate_f, [lemma_f], timeout=600)
 
@@ -310,3 +312,48 @@ def bookmark_lemma(run):
     return crate, dict(id="K-C09-f.bookmark_name_is_the_raw_id", harness="bookmark_name_is_the_raw_id", api=lambda v, o: api_bookmark(),
                        role=lambda v, o: "bookmark-id-translated", covers=["one-letter id reachable", "generated id reachable"],
                        claim="the mark written for a node is <mark name='ID'/> with ID exactly the node's id attribute")
+
+
+# ======================================================================================================================
+# D-C09-g: split_points::split_element (∠ABC -> A B C) does not hand the token's id to the new letters
+SPLIT_HARNESS = r"""
+HARNESS(split_points_keeps_ids_distinct, 16, [std::string::ToString::to_string => to_string_stub]) {
+    let row = dom::new_node(5);
+    let shape = dom::new_node(7); row.append_child_id(shape.id);
+    let leaf = dom::new_node(0); dom::set_leaf(leaf, 17); row.append_child_id(leaf.id);          // <mi>AB</mi>
+    let has_id = sym::bool();
+    if has_id { leaf.set_attribute_value("id", "a"); }
+    let r = split_element(leaf);
+    cover!(has_id, "points token with an author id reachable");
+    assert!(r.id == leaf.id && name(&r) == "mrow", "the token is not reused as the mrow");
+    let ch = r.children();
+    assert!(ch.len() == 2 && as_text(as_element(ch[0])) == "A" && as_text(as_element(ch[1])) == "B", "the letters are not the characters of the token, in order");
+    if has_id {
+        assert!(r.attribute("id") == Some(dom::id_code("a")), "the author id left the element that took the token's place");
+        assert!(as_element(ch[0]).attribute("id") != r.attribute("id") && as_element(ch[1]).attribute("id") != r.attribute("id"), "a new letter element carries the id of the token it came from: the id is no longer unique");
+    }
+}
+"""
+
+
+def api_split(vals=None, out=None):
+    import re
+    res = mcprobe([("mathml", "<math><mo>&#x2220;</mo><mi id='abc'>ABC</mi></math>")])
+    ids = re.findall(r"id='([^']*)'", res[0][1]) if res[0][0] == "OK" else []
+    return res[0][0] != "OK" or len(ids) != len(set(ids)), {"script": "set_mathml(angle sign followed by <mi id='abc'>ABC</mi>)", "ids": ids}
+
+
+def split_lemma(run):
+    c = slicer.Source.get("src/canonicalize.rs")
+    f = c.find("fn clean_mathml", "fn split_points", "fn split_element")
+    run.uses(f)
+    shim = LIFT_SHIM[:LIFT_SHIM.index("const CHANGED_ATTR")]
+    body0 = prelude.PHF_MOCK + prelude.MINIDOM + prelude.TOSTRING_STUB + shim + f.text
+    helpers = slicer.called_helpers(c, f.text, body0)
+    run.uses(*helpers)
+    crate = kani_run.Crate("c09split", body0 + "\n".join(h.text for h in helpers) + SPLIT_HARNESS, native_deps=prelude.PHF_NATIVE_DEP)
+    run.bound("D-C09-g", "split_element (nested in split_points) verbatim, with whatever free functions of canonicalize.rs it calls, on <mi>AB</mi> with or without an author id (model DOM)")
+    run.assume("model DOM (MINIDOM) with an attribute list holding only the id attribute; char::to_string stubbed")
+    return crate, dict(id="D-C09-g.split_points_keeps_ids_distinct", harness="split_points_keeps_ids_distinct", api=lambda v, o: api_split(),
+                       role=lambda v, o: "split-letters-inherit-id", covers=["points token with an author id reachable"],
+                       claim="the token (now an mrow) keeps its id, the new letter elements do not carry it, and they hold the token's characters in order")
